@@ -475,6 +475,17 @@ func ConnReplay(msgs []*Exp, rng *rand.Rand, j *sess.Journal, tracking bool) ([]
 				got[cur] = append(got[cur], l)
 				mu.Unlock()
 			})
+			// the only other handler for the verb, in the background set, edits the line it was given: the
+			// foreground handler's line (looked at when the batch is over) must still be what was sent
+			s.C.HandleBG(e.Cmd, client.HandlerFunc(func(c *client.Conn, l *client.Line) {
+				for i := range l.Args {
+					l.Args[i] = "edited-by-the-background-handler"
+				}
+				for k := range l.Tags {
+					l.Tags[k] = "edited"
+				}
+				l.Nick, l.Ident, l.Host, l.Src, l.Cmd = "edited", "edited", "edited", "edited", "EDITED"
+			}))
 		}
 	}
 	done := make(chan struct{})
